@@ -20,60 +20,68 @@ def Rd.fresh (data sched : List Nat) (failAt : Option Nat) : Rd := { data := dat
 theorem readExact_schedule_free (r : Rd) (h : Rd.Ok r) (n fuel : Nat) (hfuel : n ≤ fuel) :
     (n ≤ r.data.length → ∃ r', r.readExact fuel n = .ok (r.data.take n, r') ∧ Rd.Ok r' ∧ r'.data = r.data.drop n) ∧
     (r.data.length < n → r.readExact fuel n = .error .eof) := by
-  sorry
+  exact Rd.readExact_ok fuel r h n hfuel
 
 /-- readLine_schedule_free: `read_line` returns the bytes up to and including the first newline (or everything). -/
 theorem readLine_schedule_free (r : Rd) (h : Rd.Ok r) (fuel : Nat) (hfuel : r.data.length < fuel) :
     ∃ r', r.readLine fuel =
         .ok (r.data.takeWhile (· ≠ 10) ++ (if (r.data.takeWhile (· ≠ 10)).length < r.data.length then [10] else []), r') ∧
       Rd.Ok r' ∧ r'.data = r.data.drop ((r.data.takeWhile (· ≠ 10)).length + 1) := by
-  sorry
+  exact Rd.readLine_ok fuel r h hfuel
 
 /-- readToEnd_schedule_free. -/
 theorem readToEnd_schedule_free (r : Rd) (h : Rd.Ok r) (fuel : Nat) (hfuel : r.data.length < fuel) :
     ∃ r', r.readToEnd fuel = .ok (r.data, r') := by
-  sorry
+  obtain ⟨r', he, _⟩ := Rd.readToEnd_schedule_free fuel r h hfuel
+  exact ⟨r', he⟩
 
 /-- readNpy_schedule_free: for every schedule of chunk lengths (down to one byte at a time, any first chunk), reading
     an npy stream gives exactly what reading the whole byte string gives — result or error. -/
 theorem readNpy_schedule_free (data sched : List Nat) :
     readNpyRd (Rd.fresh data sched none) = readNpy data := by
-  sorry
+  exact readNpyRd_ok (Rd.fresh data sched none) ⟨Nat.zero_le _, rfl⟩
 
 /-- readText_schedule_free: the same for the text reader (`read_line` + `read_to_string`). -/
 theorem readText_schedule_free (data sched : List Nat) :
     readTextRd (Rd.fresh data sched none) = readText data := by
-  sorry
+  exact readTextRd_ok (Rd.fresh data sched none) ⟨Nat.zero_le _, rfl⟩
 
 /-- detect_schedule_free (after fix 1c0411c): the bytes format/compression detection looks at are the first 64 KiB of
     the stream whatever the chunking — in particular whatever the length of the first chunk. -/
 theorem detect_schedule_free (data sched : List Nat) (inflate3 : List Nat → Option (List Nat)) :
     ∃ r', readPrefix (Rd.fresh data sched none) = .ok (data.take 65536, r') ∧
       ∀ sched', ∃ r'', readPrefix (Rd.fresh data sched' none) = .ok (data.take 65536, r'') := by
-  sorry
+  have key : ∀ s, ∃ r', readPrefix (Rd.fresh data s none) = .ok (data.take 65536, r') := fun s =>
+    readPrefix_ok (Rd.fresh data s none) ⟨Nat.zero_le _, rfl⟩
+  obtain ⟨r', he⟩ := key sched
+  exact ⟨r', he, key⟩
 
 /-- read_failure_surfaces (npy): if the underlying reader fails at any byte offset up to and including the end of the
     stream, the npy reader does not succeed — it never returns a spectrum built from partial data. -/
 theorem read_failure_surfaces_npy (data sched : List Nat) (k : Nat) (hk : k ≤ data.length) :
     ∃ e, readNpyRd (Rd.fresh data sched (some k)) = .error e := by
-  sorry
+  rcases readNpyRd_fail (Rd.fresh data sched (some k)) k ⟨rfl, Nat.zero_le _, hk⟩ with he | ⟨e, he, _⟩
+  · exact ⟨_, he⟩
+  · exact ⟨e, he⟩
 
 /-- … and when the bytes before the failure are a prefix of a valid file, the error reported is the I/O error itself. -/
 theorem read_failure_is_io_npy (data sched : List Nat) (k : Nat) (hk : k ≤ data.length) (s : List Nat × List Nat)
     (hvalid : readNpy data = .ok s) :
     readNpyRd (Rd.fresh data sched (some k)) = .error .io := by
-  sorry
+  rcases readNpyRd_fail (Rd.fresh data sched (some k)) k ⟨rfl, Nat.zero_le _, hk⟩ with he | ⟨e, _, he⟩
+  · exact he
+  · rw [show (Rd.fresh data sched (some k)).data = data from rfl, hvalid] at he; cases he
 
 /-- read_failure_surfaces (text). -/
 theorem read_failure_surfaces_text (data sched : List Nat) (k : Nat) (hk : k ≤ data.length) :
     readTextRd (Rd.fresh data sched (some k)) = .error .io := by
-  sorry
+  exact readTextRd_fail (Rd.fresh data sched (some k)) k ⟨rfl, Nat.zero_le _, hk⟩
 
 /-- writeAll_schedule_free: through a writer that accepts only a few bytes per call, `write_all` delivers exactly the
     buffer. -/
 theorem writeAll_schedule_free (w : Wr) (buf : List Nat) (hf : w.failAt = none) :
     ∃ w', w.writeAllOf buf = .ok w' ∧ w'.out = w.out ++ buf ∧ w'.failAt = none := by
-  sorry
+  exact Wr.writeAll_none buf.length buf w hf (Nat.le_refl _)
 
 /-- writeNpy_schedule_free: the npy writer produces the same bytes through any short-writing writer as in one piece
     (and fails the same way when the header does not fit). -/
@@ -81,23 +89,27 @@ theorem writeNpy_schedule_free (shape bits sched : List Nat) :
     (∀ bytes, writeNpy shape bits = .ok bytes →
       ∃ w', writeNpyWr shape bits { sched := sched } = .ok w' ∧ w'.out = bytes) ∧
     (∀ e, writeNpy shape bits = .error e → writeNpyWr shape bits { sched := sched } = .error e) := by
-  sorry
+  obtain ⟨h1, h2⟩ := writeNpyWr_none shape bits { sched := sched } rfl
+  refine ⟨fun bytes hb => ?_, h2⟩
+  obtain ⟨w', he, ho⟩ := h1 bytes hb
+  exact ⟨w', he, by rw [ho]; exact List.nil_append _⟩
 
 /-- writeText_schedule_free. -/
 theorem writeText_schedule_free (shape bits sched : List Nat) (p : Nat) :
     ∃ w', writeTextWr shape bits p { sched := sched } = .ok w' ∧ w'.out = asciiBytes (writeText shape bits p) := by
-  sorry
+  obtain ⟨w', he, ho⟩ := writeTextWr_none shape bits p { sched := sched } rfl
+  exact ⟨w', he, by rw [ho]; exact List.nil_append _⟩
 
 /-- write_failure_surfaces: a writer failing at any offset before the last byte makes the operation fail. -/
 theorem write_failure_surfaces_npy (shape bits sched bytes : List Nat) (k : Nat)
     (hw : writeNpy shape bits = .ok bytes) (hk : k < bytes.length) :
     writeNpyWr shape bits { sched := sched, failAt := some k } = .error .io := by
-  sorry
+  exact writeNpyWr_fail shape bits bytes _ k rfl hw hk
 
 theorem write_failure_surfaces_text (shape bits sched : List Nat) (p k : Nat)
     (hk : k < (writeText shape bits p).length) :
     writeTextWr shape bits p { sched := sched, failAt := some k } = .error .io := by
-  sorry
+  exact writeTextWr_fail shape bits p k _ rfl hk
 
 /-! non-vacuity: one byte at a time, and a first chunk of 7 bytes then 1, 2, 3 …; failure at offset 130 -/
 example :
